@@ -174,6 +174,11 @@ def real_pairs(job):
             c2, t2 = copy.deepcopy(c), copy.deepcopy(t)
             c2[wk] = c[wk] - 2
             pairs.append(dict(kind="less_waste", what="%s-2" % wk, z0=z0, z1=z_of(c2, t2)))
+        if c[wk] > 0.5:
+            # down to half a percent (waste is a percentage whatever its size)
+            c2, t2 = copy.deepcopy(c), copy.deepcopy(t)
+            c2[wk] = 0.5
+            pairs.append(dict(kind="less_waste", what="%s down to 0.5" % wk, z0=z0, z1=z_of(c2, t2)))
     if c["ADD_STORED_FOOD"] or c["ADD_OUTDOOR_GROWING"]:
         for m in months[:2]:
             c2, t2 = copy.deepcopy(c), copy.deepcopy(t)
@@ -199,6 +204,18 @@ def real_pairs(job):
         else:
             continue
         break
+    # both charges present in every month (as in a final round), then one of them raised over a window of months
+    cb, tb = copy.deepcopy(c), copy.deepcopy(t)
+    tb["feed"].kcals = np.asarray(tb["feed"].kcals, dtype=float) + 0.1 * need
+    tb["biofuel"].kcals = np.asarray(tb["biofuel"].kcals, dtype=float) + 0.1 * need
+    zb = z_of(cb, tb)
+    if zb is not None:
+        for key in ("feed", "biofuel"):
+            for a, b in ((0, 12), (36, N)):
+                c2, t2 = copy.deepcopy(cb), copy.deepcopy(tb)
+                t2[key].kcals[a:b] += 0.03 * need
+                pairs.append(dict(kind="more_charge", what="%s[%d:%d]+0.03 need on top of 0.1 need of feed and biofuel everywhere" % (key, a, b),
+                                  z0=zb, z1=z_of(c2, t2)))
     # a cap's right-hand side alone (the running slaughter total without the monthly series): relaxing it never hurts
     if c["ADD_MEAT"] and c["STORE_FOOD_BETWEEN_YEARS"]:
         for m in sorted(set(months + [N - 1])):
